@@ -233,13 +233,13 @@ def skel_arch_arch_createMtree : List Bytes := [
 def skel_arch_arch_WriteTo : List Bytes := [
   b!"switch p0.Type{",
   b!"case files.TypeDir,files.TypeImplicitDir:",
-  b!"v0:=fmt.Fprintf(p1,\"./%s time=%d.0 mode=%o type=dir\\n\",p0.Destination,p0.Time,p0.Mode,)",
+  b!"v0:=fmt.Fprintf(p1,\"./%s time=%d.0 mode=%o type=dir\\n\",mtreeQuote(p0.Destination),p0.Time,p0.Mode,)",
   b!"return int64(v0),err",
   b!"case files.TypeSymlink:",
-  b!"v1:=fmt.Fprintf(p1,\"./%s time=%d.0 mode=%o type=link link=%s\\n\",p0.Destination,p0.Time,p0.Mode,p0.LinkSource,)",
+  b!"v1:=fmt.Fprintf(p1,\"./%s time=%d.0 mode=%o type=link link=%s\\n\",mtreeQuote(p0.Destination),p0.Time,p0.Mode,mtreeQuote(p0.LinkSource),)",
   b!"return int64(v1),err",
   b!"default:",
-  b!"v2:=fmt.Fprintf(p1,\"./%s time=%d.0 mode=%o size=%d type=file md5digest=%x sha256digest=%x\\n\",p0.Destination,p0.Time,p0.Mode,p0.Size,p0.MD5,p0.SHA256,)",
+  b!"v2:=fmt.Fprintf(p1,\"./%s time=%d.0 mode=%o size=%d type=file md5digest=%x sha256digest=%x\\n\",mtreeQuote(p0.Destination),...#14893680bcb7e855",
   b!"return int64(v2),err",
   b!"}"
 ]
